@@ -453,6 +453,289 @@ def load_corpus(ctx):
 
 # ------------------------------------------------------------------ judging one implementation run
 
+# ------------------------------------------------- exceptions thrown by payload operations (python oracle)
+class _Thrown(Exception):
+    pass
+
+
+class _W:                              # a wrapper of the throwing payload: live payload (code or None) and the flag
+    def __init__(self):
+        self.live, self.hv = None, False
+
+
+def oracle_X(ops):
+    """Statement-order semantics of the members of Optional.h when the n-th payload construction / assignment at the
+    wrapper's storage throws (th:n plants n for the next step).  Independent restatement of the order the source has:
+      reset():   if (has_value()) ~T();  hasValue = false
+      dcsin():   if (!has_value()) { new T(); hasValue = true }
+      emplace(): reset();  new T(arg);  hasValue = true
+      op=(U&&):  dcsin();  value() = arg;  hasValue = true
+      wrapper op=: if (other) { dcsin(); value() = other.value(); hasValue = true } else reset()
+      copy ctor: Optional(); if (other) *this = other.value()      move ctor: Optional(); if (other) emplace(move(other.value()))
+    Returns (steps, zidx): steps = [(out, dump)] with dump entries T v<code>L | eR | eL | vXR; zidx = the step after which a payload
+    is ALIVE WITHOUT THE FLAG (cannot happen with the repaired helper; with the helper before 4e05296 it did: from there on the
+    trace is only compared up to that step - the state itself is a plain violation)."""
+    st = [None] * NS
+    cnt = [0]
+    zombie = [False]
+    zidx = [None]                      # number of steps up to and including the one that left a payload alive without the flag
+    lost = [0]                         # payloads alive in a slot whose wrapper is gone (leaked for good)
+
+    def pay():
+        if cnt[0] > 0:
+            cnt[0] -= 1
+            if cnt[0] == 0:
+                raise _Thrown()
+
+    def reset(w):
+        if w.hv: w.live = None
+        w.hv = False
+
+    def dcsin(w):
+        if not w.hv:
+            pay(); w.live = 0; w.hv = True          # the helper raises the flag as soon as the T() exists
+
+    def emplace(w, v):
+        reset(w); pay(); w.live = v; w.hv = True
+
+    def assignv(w, v):
+        dcsin(w); pay(); w.live = v; w.hv = True
+
+    def dump():
+        out = []
+        for w in st:
+            if w is None: out.append("-")
+            elif w.hv: out.append("Tv%dL" % w.live if w.live is not None else "TvXR")
+            else: out.append("TeL" if w.live is not None else "TeR")
+        return ",".join(out)
+
+    res = []
+    planted = 0
+    for tok in ops:
+        f = tok.split(":")
+        c = f[0]
+        if c == "th":
+            planted = int(f[1]); res.append(("ok", dump())); continue
+        cnt[0], planted = planted, 0
+        i = int(f[1]); wi = st[i]; out = "ok"
+        try:
+            if c in ("cd", "cv", "cc", "cm"):
+                if wi is not None: out = "ill"
+                elif c == "cd": st[i] = _W()
+                elif c == "cv":
+                    w = _W(); emplace(w, int(f[3])); st[i] = w                 # (a throwing constructor: no wrapper)
+                else:
+                    wj = st[int(f[2])]
+                    if wj is None: out = "ill"
+                    else:
+                        w = _W()                                               # Optional() completed: ~Optional runs if the body throws
+                        try:
+                            if wj.hv:
+                                if c == "cc": assignv(w, wj.live)
+                                else:
+                                    emplace(w, wj.live); wj.live = 0
+                            st[i] = w
+                        except _Thrown:
+                            reset(w)
+                            if w.live is not None: zombie[0] = True; lost[0] += 1
+                            raise
+            elif wi is None: out = "ill"
+            elif c == "d": reset(wi); st[i] = None; lost[0] += 1 if wi.live is not None else 0
+            elif c == "av": assignv(wi, int(f[2]))
+            elif c == "em": emplace(wi, int(f[2]))
+            elif c == "rs": reset(wi)
+            elif c in ("ac", "am"):
+                wj = st[int(f[2])]
+                if wj is None or (c == "am" and i == int(f[2])): out = "ill"
+                elif wj.hv:
+                    v = wj.live
+                    assignv(wi, v)
+                    if c == "am": wj.live = 0
+                else: reset(wi)
+            elif c == "hv": out = "true" if wi.hv else "false"
+            elif c == "val": out = "val=none" if not wi.hv else "val=%d" % wi.live
+            else: out = "badop"
+        except _Thrown:
+            out = "throw"
+        cnt[0] = 0
+        for w in st:
+            if w is not None and w.live is not None and not w.hv: zombie[0] = True
+        res.append((out, dump()))
+        if zombie[0] and zidx[0] is None: zidx[0] = len(res)
+    return res, zidx[0]
+
+
+def check_X(ops, line):
+    """-> (valid, tie, reason, required): valid = the property holds on the implementation's own output (after every caught
+    exception the wrapper is in a valid state: flag => live payload, no payload operation on dead storage, everything that
+    was constructed is destroyed exactly once); tie = the output equals the statement-order semantics"""
+    exp, zombie = oracle_X(ops)
+    req = " ; ".join(o + "|" + d for o, d in exp) + " ; end|" + ",".join(["-"] * NS)
+    steps = line.split(" ; ")
+    got = []
+    for s_ in steps:
+        p = s_.split("|")
+        got.append((re.sub(r"!.*", "", p[0]), re.sub(r"!MISALIGNED", "", p[-1])) if len(p) == 3 else ("?", s_))
+    valid = "!" not in line and "vXR" not in line and "XR" not in line
+    reason = ""
+    if not valid:
+        reason = "after a caught payload exception: " + ",".join(sorted(set(re.findall(r"![A-Za-z-]+(?:\([0-9/]+\))?(?:@\w+)?|T[ve]XR|TvXR", line)))[:4])
+    if zombie is not None:             # from there on the leaked object makes the rest of the trace meaningless: compare the prefix
+        tie = len(got) >= zombie and all(g == e for g, e in zip(got[:zombie], exp[:zombie]))
+    else:
+        tie = len(got) == len(exp) + 1 and all(g == e for g, e in zip(got, exp))
+    return valid, tie, reason, req, zombie is not None
+
+
+ALPHA_X = ["cd:0:0", "cv:0:0:20", "cv:1:0:28", "cd:1:0", "th:1", "th:2", "em:0:12", "av:0:16:0", "ac:0:1", "am:0:1", "ac:1:0", "cc:2:0", "cm:2:1",
+           "rs:0", "d:0", "val:0", "hv:0", "em:1:8"]
+
+
+def gen_X(r):
+    ops = []
+    for _ in range(r.randint(3, 14)):
+        ops.append(r.choice(ALPHA_X + ["th:1", "th:2", "th:3"]))
+    return "O " + " ".join(ops)
+
+
+def exception_stage(ctx, exe, exe_odd, counters):
+    """EXCEPTIONS from payload operations: every member that runs a payload operation, with the throw planted at that operation"""
+    r = ctx.rng("throw")
+    cases = ["O " + " ".join(t) for n in range(2, 4) for t in itertools.product(ALPHA_X, repeat=n) if any(x.startswith("th") for x in t)] + \
+        [gen_X(r) for _ in range(ctx.pick(1500, 12000))]
+    acases = []
+    ra = ctx.rng("throw-any")
+    for _ in range(ctx.pick(1200, 8000)):
+        ops = gen_A(ra, 16).split()[1:]
+        out = []
+        for t in ops:
+            if t.split(":")[0] in ("cv", "av", "cc", "ac", "mc", "ma") and ra.random() < 0.35:
+                out.append("th:1")
+            out.append(t)
+        acases.append("A " + " ".join(out))
+    tally(counters, cases, 2, "O")
+    planted_hits = {}
+    for label, ex in (("Optional<throwing payload>", exe), ("Optional<throwing payload>@odd-offset", exe_odd)):
+        rc, lines, err = vlib.run_lines(ctx, ex, ["trk"], cases)
+        ctx.count(len(cases))
+        bad = None
+        ties = None
+        for i, c in enumerate(cases):
+            il = lines[i] if i < len(lines) else "<no output: harness died>"
+            ops = c.split()[1:]
+            valid, tie, reason, req, zombie = check_X(ops, il)
+            if "throw" in il:
+                for t_, s_ in zip(ops[1:], il.split(" ; ")[1:]):
+                    if s_.startswith("throw"):
+                        planted_hits[t_.split(":")[0]] = planted_hits.get(t_.split(":")[0], 0) + 1
+                ctx.nontriv("X" + c)
+            if not valid and bad is None: bad = (i, il, reason, req)
+            if valid and not tie and ties is None: ties = (i, il, req)
+        if rc != 0 and bad is None:
+            n = len(lines)
+            bad = (min(n, len(cases) - 1), "<harness died rc=%d>" % rc, "harness died rc=%d (sanitizer report / crash on the real code)" % rc, None)
+        if bad is not None and len(ctx.violations) < VIOLATION_CAP:
+            i, il, reason, req = bad
+
+            def fails(ops, ex=ex):
+                l = "O " + " ".join(ops)
+                rc2, out2, _ = ctx.run_exe(ex, ["trk"], stdin=l + "\n", timeout=60)
+                v, t, _, _, z = check_X(ops, out2.strip("\n")) if rc2 == 0 else (False, False, "", "", False)
+                return not v
+            small = vlib.shrink_list(cases[i].split()[1:], fails)
+            sl = "O " + " ".join(small)
+            rc2, out2, err2 = ctx.run_exe(ex, ["trk"], stdin=sl + "\n", timeout=60)
+            v, t, reason2, req2, z = check_X(small, out2.strip("\n")) if rc2 == 0 else (False, False, "harness died rc=%d" % rc2, None, False)
+            ctx.violation("Optional history with a throwing payload operation [%s]: %s" % (label, reason2 or reason),
+                          {"label": label, "harness_args": ["trk"], "case": sl, "observed": out2.strip("\n"), "required": req2 or req,
+                           "rc": rc2, "stderr_tail": err2[-1200:], "original_case": cases[i]})
+        elif ties is not None:
+            i, il, req = ties
+            ctx.broken.append("correspondence C09 statement-order exception semantics vs %s on case %r: impl=%r expected=%r (state valid)"
+                              % (label, cases[i], il[:300], req[:300]))
+    need = ("cv", "em", "av", "ac", "am", "cc", "cm")
+    miss = [k for k in need if not planted_hits.get(k)]
+    if miss:
+        ctx.broken.append("generator coverage: no exception was raised inside: " + ", ".join(miss))
+    ctx.cov["exceptions_raised_in"] = planted_hits
+    # ---- Any: strong guarantee - a throwing payload operation leaves the Any (and the source) exactly as it was
+    if acases:
+        rc, lines, err = vlib.run_lines(ctx, exe, ["trk"], acases)
+        ctx.count(len(acases))
+        tally(counters, acases, 1, "A")
+        for i, c in enumerate(acases):
+            il = lines[i] if i < len(lines) else "<no output: harness died>"
+            req = oracle_AX(c.split()[1:])
+            if il != req:
+                if len(ctx.violations) < VIOLATION_CAP:
+                    ctx.violation("Any history with a throwing payload operation: state after the caught exception differs from the unchanged state "
+                                  "(or a holder leaked)", {"label": "Any", "harness_args": ["trk"], "case": c, "observed": il, "required": req})
+                break
+
+
+def oracle_AX(ops):
+    """Any with th:1 planted: every value operation of Any allocates the new holder before it touches currentValue, so a throwing
+    payload constructor leaves the target (and the source) unchanged; payload types whose operations cannot throw ignore the plant"""
+    st = [None] * NS
+    def dump():
+        return ",".join("-" if w is None else ("e" if w == "e" else "%d:%d" % w) for w in st)
+    res = []
+    planted = False
+    for tok in ops:
+        f = tok.split(":"); c = f[0]
+        if c == "th":
+            planted = True; res.append("ok|" + dump()); continue
+        p, planted = planted, False
+        i = int(f[1]); wi = st[i]
+        throws = False
+        if p:
+            if c in ("cv", "av") and int(f[2]) in (4, 5): throws = not (c == "cv" and wi is not None) and not (c == "av" and wi is None)
+            if c in ("cc", "mc", "ac", "ma"):
+                wj = st[int(f[2])]
+                ok_form = (wi is None) if c in ("cc", "mc") else (wi is not None)
+                throws = ok_form and wj is not None and wj != "e" and wj[0] in (4, 5)
+        if throws:
+            res.append("throw|" + dump()); continue
+        sub_state = list(st)
+        line = _oracle_A_from(sub_state, tok)
+        st = sub_state
+        res.append(line + "|" + dump())
+    res.append("end|" + ",".join(["-"] * NS) + "|outstanding=0")
+    return " ; ".join(res)
+
+
+def _oracle_A_from(st, tok):
+    f = tok.split(":"); c = f[0]; i = int(f[1]); wi = st[i]; out = "ok"
+    if c in ("cd", "cv", "cc", "mc"):
+        if wi is not None: out = "ill"
+        elif c == "cd": st[i] = "e"
+        elif c == "cv": st[i] = (int(f[2]), int(f[3]))
+        else:
+            wj = st[int(f[2])]
+            if wj is None: out = "ill"
+            else: st[i] = wj
+    elif wi is None: out = "ill"
+    elif c == "d": st[i] = None
+    elif c == "av": st[i] = (int(f[2]), int(f[3]))
+    elif c in ("ac", "ma", "eq", "ne"):
+        wj = st[int(f[2])]
+        if wj is None: out = "ill"
+        elif c in ("ac", "ma"): st[i] = wj
+        else:
+            if wi == "e" or wj == "e": r = (wi == "e" and wj == "e")
+            else: r = wi[0] == wj[0] and wi[0] != 4 and peqv(wi[0], wi[1], wj[1])
+            out = "true" if (r if c == "eq" else not r) else "false"
+    elif c == "get": out = "val=%d" % wi[1] if wi != "e" and wi[0] == int(f[2]) else "throw"
+    elif c == "set":
+        if wi != "e" and wi[0] == int(f[2]): st[i] = (wi[0], int(f[3]))
+        else: out = "throw"
+    elif c == "is": out = "true" if wi != "e" and wi[0] == int(f[2]) else "false"
+    elif c == "valid": out = "true" if wi != "e" else "false"
+    elif c == "str": out = "str=empty" if wi == "e" else "str=%d" % wi[0]
+    else: out = "badop"
+    return out
+
+
 # ------------------------------------------------------------------ robustness: isolated stages, oracle-only mode, budgets
 BUDGET_S = 225            # wall-clock budget of the whole run; stages starting later are skipped (recorded as broken)
 VIOLATION_CAP = 14        # concrete inputs shrunk and reported per run; further mismatching labels are only named
@@ -1098,6 +1381,7 @@ def _run(ctx):
                            "any_random": len(a_rand), "any_exhaustive": len(a_exh), "payload_families": [f[0] for f in FAMS],
                            "placements": ["64-byte aligned slot", "struct{char; Optional<T>} (odd offset when alignment is 1)"]})
     # ---- inventory closure: AST declarations vs COVER, with the execution counts of this run
+    stage(ctx, "payload exceptions", lambda: exception_stage(ctx, exe, exe_odd, counters))
     stage(ctx, "inventory closure", lambda: inventory_check(ctx, src_facts, counters, facts_ok))
     ctx.rule = ("Optional: random histories (length<=30, 4 wrapper slots, both payload types T and convertible U, sources biased to be empty "
                 "half of the time) + all histories of length<=%d over a %d-op alphabet + all continuations of length<=%d (%d-op alphabet) of "
